@@ -20,7 +20,9 @@ import (
 // and is, by construction, verified each time the table is built. Enumerating keys reaches such a
 // pair only with probability 2^-32 per pair, so the many-keys histories end with every pair used
 // back to back (a, b, a, b): whatever the library keeps per key must be recognised by the key.
-// Full 64-bit (or wider) fingerprints are out of reach of this search and remain a stated limit.
+// Full 64-bit digests are out of reach of a birthday table; for FNV-1 / FNV-1a 64, and the leading
+// 8 bytes of MD5 and SHA-256 a pair was found by cycle finding (collidingWide). Fingerprints wider
+// than 64 bits, or keyed ones (hash/maphash), remain a stated limit.
 
 type keyDigest struct {
 	name string
@@ -71,6 +73,20 @@ var keyDigests = []keyDigest{
 	{"last-4-bytes", func(k []byte) uint64 { return uint64(binary.BigEndian.Uint32(k[12:])) }},
 }
 
+// collidingWide: pairs that agree under a full 64-bit digest. They were found by cycle finding
+// (mc/cmd/collsearch: about 2^33 digest evaluations each, minutes on one core) and are verified
+// against the digest each time the table is built.
+var collidingWide = []struct {
+	name string
+	a, b string
+	fn   func(k []byte) uint64
+}{
+	{"fnv1-64", "4c6f526157414e21b16cb5fc5869235e", "4c6f526157414e21a13899681dc30941", func(k []byte) uint64 { h := fnv.New64(); h.Write(k); return h.Sum64() }},
+	{"fnv1a-64", "4c6f526157414e21441c77fbab3f2eed", "4c6f526157414e2174289b4feef96af8", func(k []byte) uint64 { h := fnv.New64a(); h.Write(k); return h.Sum64() }},
+	{"md5-8", "4c6f526157414e216f06d7fdc1c506dc", "4c6f526157414e21a705086571baba46", func(k []byte) uint64 { s := md5.Sum(k); return binary.BigEndian.Uint64(s[:]) }},
+	{"sha256-8", "4c6f526157414e21958cf4483c5f4988", "4c6f526157414e2145cdb9fa42389749", func(k []byte) uint64 { s := sha256.Sum256(k); return binary.BigEndian.Uint64(s[:]) }},
+}
+
 // collisionKeyBase is the argument number from which manyKey returns the colliding keys: argument
 // collisionKeyBase+2p and +2p+1 are the two keys of pair p (the table repeats beyond its end).
 const collisionKeyBase = 1 << 23
@@ -109,6 +125,14 @@ func collidingKeys() ([][]byte, []string) {
 					panic("colliding-keys: no collision for " + d.name)
 				}
 			}
+		}
+		for _, w := range collidingWide {
+			a, b := mustHex(w.a), mustHex(w.b)
+			if string(a) == string(b) || w.fn(a) != w.fn(b) {
+				panic("colliding-keys: recorded pair is wrong for " + w.name)
+			}
+			collidingTable = append(collidingTable, a, b)
+			collidingNames = append(collidingNames, w.name)
 		}
 		// constructed: equal but for one bit in the first / last / a middle byte (a 64- or 96-bit prefix or suffix agrees)
 		base := seq(0xC0111DE)
@@ -149,5 +173,5 @@ func collidingRule() string {
 			list += n
 		}
 	}
-	return fmt.Sprintf(" The history ends with %d pairs of distinct keys that agree under a cheap key fingerprint (%s; found by exhaustive birthday search), each pair used a, b, a, b.", len(t)/2, list)
+	return fmt.Sprintf(" The history ends with %d pairs of distinct keys that agree under a cheap key fingerprint (%s; found by exhaustive birthday search, the 64-bit ones by cycle finding), each pair used a, b, a, b.", len(t)/2, list)
 }
